@@ -5,7 +5,9 @@ CONSTANTS
   Budget = 2
   MaxTurns = 7
   Restarts = 0
-  Defects = {}
+  Stops = 0
+  Pills = 0
+  Defects = {"StopRace"}
   RankOf <- Ranks
 INVARIANTS TokensSuffice
 PROPERTIES EventuallyDrained
